@@ -189,7 +189,7 @@ def _random_chunk(args):
         entry = rng.choice(["Retry", "AsyncRetry"])
         perm = retryenv.class_perm(base + i) if rng.random() < 0.5 else None
         place = rng.choice(["call", "ctor", "both"])
-        acb = entry == "AsyncRetry" and rng.random() < 0.5
+        acb = rng.choice([False, True, "lambda"]) if entry == "AsyncRetry" else False
         # a multi-run script: split the environment script evenly is unnecessary - queues are
         # global across runs; the deliver markers give the number of runs and the mode
         try:
@@ -228,7 +228,7 @@ FOUR = [{"entry": "Retry", "permute": False, "place": "both"},
         {"entry": "AsyncRetry", "permute": True, "wall": "back"},
         {"entry": "Retry", "permute": True, "place": "ctor", "wall": "frozen"},
         {"entry": "AsyncRetry", "permute": False, "place": "ctor", "async_callbacks": True},
-        {"entry": "AsyncRetry", "permute": True, "place": "both", "async_callbacks": True}]
+        {"entry": "AsyncRetry", "permute": True, "place": "both", "async_callbacks": "lambda"}]
 
 WALL = [{"entry": "Retry", "wall": "jump", "wallgroup": "s"},
         {"entry": "Retry", "wall": "frozen", "wallgroup": "s"},
